@@ -37,7 +37,8 @@ Structs == { [kind |-> "struct", shape |-> sh, transparent |-> FALSE, fs |-> fs]
                     a \in {[ty |-> "u32", attr |-> "none"], [ty |-> "u64", attr |-> "compact"], [ty |-> "vecu8", attr |-> "none"]} }
 
 IdxVals == IF Tier = "quick" THEN {0, 1, 2, 255} ELSE {0, 1, 2, 3, 254, 255}
-VariantFs == { <<>>, <<[ty |-> "u8", attr |-> "none"]>>, <<[ty |-> "u32", attr |-> "compact"], [ty |-> "vecu8", attr |-> "none"]>> }
+VariantFs == { <<>>, <<[ty |-> "u8", attr |-> "none"]>>, <<[ty |-> "u32", attr |-> "compact"], [ty |-> "vecu8", attr |-> "none"]>>,
+               <<[ty |-> "u32", attr |-> "none"]>>, <<[ty |-> "u32", attr |-> "compact"]>> }     \* same type, different wire form
 \* data-carrying variants: index from attribute or position
 DataVariants == { [src |-> s, val |-> v, skip |-> sk, fs |-> fs] :
                     s \in {"none", "attr"}, v \in IdxVals, sk \in BOOLEAN, fs \in VariantFs }
